@@ -146,7 +146,27 @@ pub async fn run_life(log: &Log, sched: &Sched, cfg: &LifeCfg, schedule: &[Strin
             _ => {}
         }
     };
+    // a second writer (an open on the client, a write on the server) that is queued behind the stuck one
+    // when the session is closed; it is not scheduled (it runs through the hook points)
+    let w2res = Arc::new(Mutex::new(String::from("none")));
+    let start_w2 = |started: &mut bool| {
+        if *started || cfg.cause != "wblock" || rg.out.with(|p| p.blocked_hits) == 0 { return; }
+        *started = true;
+        set(&w2res, "pending");
+        let (s2, w2) = (sess.clone(), w2res.clone());
+        tokio::task::spawn_local(async move {
+            anytls_rs::verif::name_task("W2");
+            if client {
+                match s2.open_stream().await { Err(_) => set(&w2, "err"), Ok((_st, rx)) => match rx.await { Ok(Ok(())) => set(&w2, "ok"), _ => set(&w2, "err") } }
+            } else {
+                let r = s2.write_data_frame(sid, Bytes::from_static(b"second writer")).await;
+                set(&w2, if r.is_ok() { "ok" } else { "err" });
+            }
+        });
+    };
+    let mut w2_started = false;
     for t in schedule {
+        if t == "K" && !k_started { start_w2(&mut w2_started); quiesce().await; }
         if t == "K" {
             if !k_started {
                 if cfg.cause == "monitor" {
@@ -160,6 +180,7 @@ pub async fn run_life(log: &Log, sched: &Sched, cfg: &LifeCfg, schedule: &[Strin
         } else if !sched.release("W") { ev!(log, "drift", task: t); }
         quiesce().await;
     }
+    if !k_started { start_w2(&mut w2_started); quiesce().await; }
     if !k_started {
         if cfg.cause == "monitor" { for _ in 0..8 { tokio::time::sleep(Duration::from_secs(30)).await; quiesce().await; if sess.is_closed() { break; } } }
         else { start_k(&mut k_started); }
@@ -189,7 +210,7 @@ pub async fn run_life(log: &Log, sched: &Sched, cfg: &LifeCfg, schedule: &[Strin
     let later_open = match tokio::time::timeout(Duration::from_secs(600), sess.open_stream()).await {
         Err(_) => "hung", Ok(Ok(_)) => "ok", Ok(Err(_)) => "err" };
     ev!(log, "final", closed: sess.is_closed(), shutdown: (rg.out.shutdowns() > 0), reader: get(&reader), popen: get(&popen),
-        w: get(&wres), k: get(&kres), later_write: later_write, later_open: later_open,
+        w: get(&wres), w2: get(&w2res), k: get(&kres), later_write: later_write, later_open: later_open,
         panics: PANICS.load(Ordering::SeqCst) - panics0);
     drop(new_streams);
 }
